@@ -51,7 +51,7 @@ def cases(draw, big):
     secret = draw(st.sampled_from(["r", "r", "r", "empty", "none"]))
     secret = {"r": pbytes(draw(st.integers(0, 3)), draw(st.sampled_from([1, 16, 32]))).hex(), "empty": "", "none": None}[secret]
     chunks = draw(st.lists(st.integers(1, max(1, min(size, 3 * seg + 5))), min_size=1, max_size=12))
-    return {"k": k, "n": n, "seg": seg, "size": size, "fill": draw(st.integers(0, 3)), "secret": secret, "chunks": chunks,
+    return {"hsalt": draw(st.integers(0, 15)), "k": k, "n": n, "seg": seg, "size": size, "fill": draw(st.integers(0, 3)), "secret": secret, "chunks": chunks,
             "change": draw(st.sampled_from(["secret", "k", "n", "seg"])),
             "fault": draw(st.none() | st.fixed_dictionaries({"server": st.integers(0, 9), "from": st.integers(0, 12), "batch": st.sampled_from([1, 64, 500, 4096]), "after": st.booleans()}))}
 
